@@ -79,7 +79,7 @@ class Basic(ManagementHandler):
         response = self.http_client.post(API_BASIC_GET_MESSAGE %
                                          (
                                              virtual_host,
-                                             queue
+                                             quote(queue, '')
                                          ),
                                          payload=get_messages)
         if to_dict:
